@@ -180,6 +180,38 @@ def events(darsia, rng, stacks, degrees, quick):
                     e2["raised"] = 1
                     e2["error"] = repr(ex)[:160]
                 ev.append(e2)
+        # the model object lives on: single parameters are replaced after it has been evaluated (calibration loops do this),
+        # through every entry point, and it is evaluated again on signals of the shape it has seen last or of another one
+        if e["raised"] == 0:
+            cur_a, cur_b = list(e["a"]), list(e["b"])
+            for step in range(rng.randint(2, 4)):
+                how = rng.choice(["update-offset", "update-scaling", "vector-offset", "vector-scaling", "vector-all", "update-both"])
+                na = [rng.randint(-2, 3) for _ in uniq]
+                nb = [rng.randint(-3, 3) for _ in uniq]
+                xs = np.array([rng.randint(0, 9) for _ in range(labels.size)], dtype=float).reshape(shape).astype(sdt)
+                e3 = {"tid": f"hetlinear:{i}:upd{step}:{how}", "op": "hetlinear", "labels": labels.ravel().tolist(), "uniq": uniq, "x": ints(xs),
+                      "raised": 0, "res": [], "shape": list(shape)}
+                try:
+                    if rng.random() < 0.5:
+                        hm(xs)            # evaluated with the parameters of before
+                    if how == "update-offset":
+                        hm.update(offset=0.5 * np.array(nb, dtype=float)); cur_b = nb
+                    elif how == "update-scaling":
+                        hm.update(scaling=0.5 * np.array(na, dtype=float)); cur_a = na
+                    elif how == "update-both":
+                        hm.update(scaling=0.5 * np.array(na, dtype=float), offset=0.5 * np.array(nb, dtype=float)); cur_a, cur_b = na, nb
+                    elif how == "vector-offset":
+                        hm.update_model_parameters(0.5 * np.array(nb, dtype=float), ["offset"]); cur_b = nb
+                    elif how == "vector-scaling":
+                        hm.update_model_parameters(0.5 * np.array(na, dtype=float), ["scaling"]); cur_a = na
+                    else:
+                        hm.update_model_parameters(0.5 * np.array(na + nb, dtype=float), rng.choice([None, "all", ["scaling", "offset"]])); cur_a, cur_b = na, nb
+                    e3["res"] = ints(2.0 * np.asarray(hm(xs), dtype=float))
+                except Exception as ex:  # noqa
+                    e3["raised"] = 1
+                    e3["error"] = repr(ex)[:160]
+                e3["a"], e3["b"] = list(cur_a), list(cur_b)
+                ev.append(e3)
         mask = np.array([rng.randint(0, 1) for _ in range(labels.size)]).reshape(shape).astype(bool)
         lo, hi = rng.randint(-1, 3), rng.choice([NONE, rng.randint(4, 8)])
         tm = darsia.StaticThresholdModel(float(lo), None if hi == NONE else float(hi))
